@@ -11,8 +11,40 @@ EXPLANATION = ('Thin clause on type-checked MIR: (a) no detected conflict can be
                'maximum priority, and otherwise accepts the leaf with that maximum. Decides that detected conflicts cannot be lost or silently resolved; NOT the "iff" with language intersection.')
 
 
+def _len_test(fn, sb, payload):
+    """If the switch at sb tests the number of elements of `payload` against a constant: ('gt1', conflict_edge, single_edge) with
+    conflict = more than one / not exactly one element.  None otherwise."""
+    c = cond_of_switch(fn, sb)
+    if not c or c['root'][0] != 'bin':
+        return None
+    rhs = c['root'][2]['rhs']
+    da, db = desc(fn, rhs['a']), desc(fn, rhs['b'])
+
+    def is_len(d):
+        return (d == 'call:std::vec::Vec::<T, A>::len(%s)' % payload
+                or (payload in d and re.match(r'^(PtrMetadata|Len)\(', d) is not None)
+                or (payload in d and re.match(r'^call:core::slice::<impl \[T\]>::len\(', d) is not None))
+    op = rhs['bop']
+    if is_len(da) and db.startswith('const:'):
+        k = int(db[6:])
+    elif is_len(db) and da.startswith('const:'):
+        k = int(da[6:])
+        op = {'Gt': 'Lt', 'Lt': 'Gt', 'Ge': 'Le', 'Le': 'Ge'}.get(op, op)
+    else:
+        return None
+    if (op, k) in (('Gt', 1), ('Ge', 2)):
+        return dict(bb=sb, conflict=c['t'], single=c['f'])
+    if (op, k) in (('Le', 1), ('Lt', 2)):
+        return dict(bb=sb, conflict=c['f'], single=c['t'])
+    if (op, k) == ('Eq', 1):
+        return dict(bb=sb, conflict=c['f'], single=c['t'])
+    if (op, k) == ('Ne', 1):
+        return dict(bb=sb, conflict=c['t'], single=c['f'])
+    return None
+
+
 def rule_state_type(rep, crate):
-    rid = rep.rule('M-C08b', 'get_state_type: matches = iter_matches(state) with each leaf\'s priority; winner = max_by_key(priority); Err(all leaves whose priority == max) exactly when there is more than one, else accept = winner', floor=5)
+    rid = rep.rule('M-C08b', 'get_state_type: candidates = iter_matches(state) paired with each leaf\'s own priority; top = their maximum priority (max_by_key on the priority, or max of the priorities); Err(all candidates whose priority == top) exactly on the edge where that list does not have a single element, otherwise accept = its single element / the max_by_key winner, early = None', floor=5)
     fn = crate.fns.get('graph::Graph::get_state_type')
     if not rep.anchor(rid, 'fn Graph::get_state_type', fn is not None):
         return
@@ -29,36 +61,31 @@ def rule_state_type(rep, crate):
         rep.viol(rid, 'state-type:err-payload', 'the Err payload is %s, expected the matches filtered by priority == max and mapped to leaf ids' % payload[:200], loc(fn, ex['line']))
         return
     matches, filt_clo, captured, map_clo = m.groups()
-    # guard: len(payload vec) > 1
+    # guard: a test of the number of tied leaves
     guard = None
     for sb in switches(fn):
-        c = cond_of_switch(fn, sb)
-        if not c or c['root'][0] != 'bin':
-            continue
-        rhs = c['root'][2]['rhs']
-        da, db = desc(fn, rhs['a']), desc(fn, rhs['b'])
-        lena = da == 'call:std::vec::Vec::<T, A>::len(%s)' % payload
-        lenb = db == 'call:std::vec::Vec::<T, A>::len(%s)' % payload
-        if (rhs['bop'] == 'Gt' and lena and db == 'const:1') or (rhs['bop'] == 'Ge' and lena and db == 'const:2') or (rhs['bop'] == 'Lt' and lenb and da == 'const:1') or (rhs['bop'] == 'Le' and lenb and da == 'const:2'):
-            guard = c
+        g = _len_test(fn, sb, payload)
+        if g is not None:
+            guard = g
     rep.inst(rid, 'state-type:guard', detail=bool(guard))
     if guard is None:
-        rep.viol(rid, 'state-type:guard', 'no `matching_prio_leaves.len() > 1` test guards the Err return', loc(fn))
+        rep.viol(rid, 'state-type:guard', 'no test of the number of top-priority leaves (len > 1, or a one-element slice pattern) guards the Err return', loc(fn))
         return
+    conflict_edge = (guard['bb'], guard['conflict'])
     # the tie test itself must not be conditional on anything but "the state matches at all"
     from mirlib import controlling_switches
     for sb in controlling_switches(fn, guard['bb']):
         r = trace(fn, fn.blocks[sb]['term']['discr'])
-        if r[0] in ('bin', 'un') or (r[0] == 'call' and not re.search(r'max_by_key$', fn.callee_name(r[2]))):
+        if r[0] in ('bin', 'un') or (r[0] == 'call' and not re.search(r'Iterator::(max_by_key|max)$', fn.callee_name(r[2]))):
             rep.viol(rid, 'state-type:extra-condition', 'the equal-priority test is only evaluated under an additional condition (%s): some ties are resolved silently' % desc(fn, fn.blocks[sb]['term']['discr'])[:120], loc(fn, fn.blocks[sb]['term']['line']))
-    if not fn.edge_dominates((guard['bb'], guard['t']), eb):
+    if not fn.edge_dominates(conflict_edge, eb):
         rep.viol(rid, 'state-type:err-edge', 'Err is returned outside the `more than one leaf at the top priority` edge', loc(fn, ex['line']))
     for ob, ox in oks:
-        if fn.edge_dominates((guard['bb'], guard['t']), ob):
+        if fn.edge_dominates(conflict_edge, ob):
             rep.viol(rid, 'state-type:ok-on-conflict', 'Ok is returned although several leaves share the top priority: the conflict is resolved silently', loc(fn, ox['line']))
-    if not always_hits(fn, (guard['bb'], guard['t']), [eb]):
+    if not always_hits(fn, conflict_edge, [eb]):
         rep.viol(rid, 'state-type:err-not-always', 'the conflict edge does not always return Err', loc(fn))
-    # matches: all matches of the state with their priorities
+    # candidates: all matches of the state with their priorities
     mm = re.fullmatch(r'call:std::iter::Iterator::collect\(call:std::iter::Iterator::map\(call:graph::dfa_util::iter_matches\(param1,param3\),agg:closure:(.*?)\{0=param2\}\)\)', matches)
     rep.inst(rid, 'state-type:matches', detail=matches[:200])
     if not mm:
@@ -69,29 +96,38 @@ def rule_state_type(rep, crate):
         if not re.fullmatch(r'agg:tuple\{0=param2,1=(local|param1)\.0.*priority\}', d0) and 'priority' not in d0:
             rep.viol(rid, 'state-type:priority-of', 'candidates are paired with %s, expected leaves[leaf_id.0].priority' % d0, loc(fn))
         elif c0 is not None:
-            # index used is the leaf id itself
             idx_ok = any(st['rhs']['rv'] == 'use' and desc(c0, st['rhs']['a']).startswith('param2.0') for _b, _s, st in c0.stmts())
             if not idx_ok:
                 rep.viol(rid, 'state-type:priority-index', 'the priority is not looked up with the leaf\'s own id', loc(c0))
-    # captured value of the filter: payload .1 of max_by_key over the same candidates, keyed by priority
+    # top: maximum of the priorities over the same candidates
     rep.inst(rid, 'state-type:max', detail=captured[:200])
-    mk = re.fullmatch(r'call:std::iter::Iterator::max_by_key\.0\.1', captured) or re.fullmatch(r'local\.1|call:std::iter::Iterator::max_by_key.*', captured)
-    mcalls = find_calls(fn, r'Iterator::max_by_key$')
-    if len(mcalls) != 1:
-        rep.viol(rid, 'state-type:max', 'expected one max_by_key over the candidates', loc(fn))
-    else:
-        mb, mt = mcalls[0]
-        over = desc(fn, mt['args'][0])
-        if matches not in over:
+    mk = find_calls(fn, r'Iterator::max_by_key$')
+    mx = find_calls(fn, r'Iterator::max$')
+    top_call = None
+    if len(mk) == 1 and not mx:
+        mb, mt = mk[0]
+        top_call = mt
+        if matches not in desc(fn, mt['args'][0]):
             rep.viol(rid, 'state-type:max-domain', 'the maximum is not taken over the same candidate list', loc(fn, mt['line']))
         kc = trace(fn, mt['args'][1])
         kclo = crate.fns.get(kc[2]['rhs']['kind'].get('closure', '')) if kc[0] == 'agg' else None
         kd = ret_desc(kclo) if kclo else '?'
         if not re.search(r'\.1$', kd):
             rep.viol(rid, 'state-type:max-key', 'max_by_key is keyed by %s, expected the priority component' % kd, loc(fn, mt['line']))
-        if 'max_by_key' not in captured or not captured.endswith('.1'):
-            # the captured local is a copy of payload.1: check through slice
-            pass
+    elif len(mx) == 1 and not mk:
+        mb, mt = mx[0]
+        top_call = mt
+        over = desc(fn, mt['args'][0])
+        mo = re.fullmatch(r'call:std::iter::Iterator::map\((.*),agg:closure:(.*?)\{\}\)', over)
+        if not mo or matches not in mo.group(1):
+            rep.viol(rid, 'state-type:max-domain', 'the maximum is not taken over the priorities of the same candidate list (%s)' % over[:160], loc(fn, mt['line']))
+        else:
+            kclo = crate.fns.get(mo.group(2))
+            kd = ret_desc(kclo) if kclo else '?'
+            if not re.search(r'\.1$', kd):
+                rep.viol(rid, 'state-type:max-key', 'the maximum is taken over %s, expected the priority component' % kd, loc(fn, mt['line']))
+    else:
+        rep.viol(rid, 'state-type:max', 'expected one max_by_key / max over the candidates', loc(fn))
     fc = crate.fns.get(filt_clo)
     fd = ret_desc(fc) if fc else '?'
     rep.inst(rid, 'state-type:filter', detail=fd)
@@ -101,26 +137,46 @@ def rule_state_type(rep, crate):
     md = ret_desc(mc) if mc else '?'
     if md != 'param2.0':
         rep.viol(rid, 'state-type:map', 'the conflict list maps candidates to %s, expected the leaf id' % md, loc(mc or fn))
-    # the captured priority and the accepted leaf both come from the max_by_key payload
-    acc = None
-    for ob, ox in oks:
-        d = desc(fn, ox['rhs']['ops'][0])
-        if d.startswith('agg:graph::StateType'):
-            acc = d
-    rep.inst(rid, 'state-type:accept', detail=acc)
-    if acc is None or not re.fullmatch(r'agg:graph::StateType\{accept=agg:std::option::Option::Some\{0=call:std::iter::Iterator::max_by_key\.0\.0\},early=agg:std::option::Option::None\{\}\}', acc):
-        rep.viol(rid, 'state-type:accept', 'the accepted state type is %s, expected accept = the max_by_key winner, early = None' % acc, loc(fn))
-    if captured != 'call:std::iter::Iterator::max_by_key.0.1' and captured != 'local':
-        sl = None
-    # captured: &highest_priority where highest_priority = payload.1
+    # the value the filter compares with is the maximum found above
     cap_ok = False
     for bi, si, st in fn.stmts():
         if st['rhs']['rv'] == 'agg' and st['rhs']['kind'].get('closure') == filt_clo:
             o = st['rhs']['ops'][0]
-            sl = fn.slice(o, through_calls=False)
-            cap_ok = any(fl[-1:] == ('1',) for _l, fl in sl.fields) and any('max_by_key' in c for c in fn.slice(o).calls)
+            sl = fn.slice(o)
+            names = {fn.callee_name(t) for _b, t in sl.call_terms}
+            direct = fn.slice(o, through_calls=False)
+            if any(re.search(r'Iterator::max_by_key$', n) for n in names):
+                cap_ok = any(fl[-1:] == ('1',) for _l, fl in direct.fields)
+            elif any(re.search(r'Iterator::max$', n) for n in names):
+                cap_ok = not direct.binops and not direct.unops
     if not cap_ok:
-        rep.viol(rid, 'state-type:captured', 'the filter does not compare against the priority of the max_by_key winner', loc(fn))
+        rep.viol(rid, 'state-type:captured', 'the filter does not compare against the maximum priority found over the candidates', loc(fn))
+    # accepted leaf: the max_by_key winner or the single element of the tie list; early = None
+    acc = None
+    acc_op = None
+    for ob, ox in oks:
+        r = trace(fn, ox['rhs']['ops'][0])
+        if r[0] == 'agg' and str(r[2]['rhs']['kind'].get('adt', '')).endswith('graph::StateType'):
+            acc = desc(fn, ox['rhs']['ops'][0])
+            flds = dict(zip(r[2]['rhs']['fields'], r[2]['rhs']['ops']))
+            acc_op = flds
+            if not fn.edge_dominates((guard['bb'], guard['single']), ob):
+                rep.viol(rid, 'state-type:accept-edge', 'a leaf is accepted outside the edge on which exactly one leaf has the top priority', loc(fn, ox['line']))
+    rep.inst(rid, 'state-type:accept', detail=(acc or '')[:300])
+    ok_acc = False
+    if acc_op is not None:
+        a = trace(fn, acc_op.get('accept'))
+        e = desc(fn, acc_op.get('early'))
+        if a[0] == 'agg' and a[2]['rhs']['kind'].get('variant') == 'Some' and 'Option::None' in e:
+            leaf = a[2]['rhs']['ops'][0]
+            ld = desc(fn, leaf)
+            sl = fn.slice(leaf)
+            names = {fn.callee_name(t) for _b, t in sl.call_terms}
+            from_winner = re.fullmatch(r'call:std::iter::Iterator::max_by_key\.0\.0', ld) is not None
+            from_ties = payload in desc(fn, leaf) or (any(re.search(r'Iterator::collect$', n) for n in names) and any(re.search(r'Iterator::filter$', n) for n in names) and not sl.binops)
+            ok_acc = from_winner or from_ties
+    if not ok_acc:
+        rep.viol(rid, 'state-type:accept', 'the accepted state type is %s, expected accept = the max_by_key winner or the single top-priority leaf, early = None' % (acc or '?')[:200], loc(fn))
 
 
 def rule_no_conflict_dropped(rep, crate):
